@@ -510,6 +510,18 @@ func c16Extras(c *ctx) {
 		} else {
 			xtrCorr(c, wi, tm, nm)
 		}
+		// dynamic containers that contain themselves directly (no pointer in between)
+		sm := map[string]interface{}{"n": int32(1)}
+		sm["self"] = sm
+		sl := []interface{}{int32(1), nil}
+		sl[1] = sl
+		for i, cyc := range []interface{}{sm, sl, &WithIface{Any: sl}} {
+			c.eval(fmt.Sprint("cyclic/dynamic-self/", i))
+			fin, pm = withDeadline(5*time.Second, func() { tm, nm = hessian.ExtractTypeNameMap(cyc) })
+			if !fin || pm != "" {
+				c.fail("extraction from a value does not terminate", map[string]interface{}{"op": "extract-ptr-cycle", "value": fmt.Sprint("dynamic container that contains itself #", i)}, pm, "")
+			}
+		}
 		c.eval("nil/untyped")
 		tm, nm = hessian.ExtractTypeNameMap(nil)
 		xtrCorr(c, nil, tm, nm)
